@@ -429,15 +429,19 @@ func checkScriptTableDeletes(c *Ctx, r *Report, pa *provAnalysis) {
 func checkC09(c *Ctx, r *Report) {
 	checkGeneratedModes(c, r)
 	checkScriptTableDeletes(c, r, newProv(c))
+	checkInstallFunctionClosed(c, r)
+	r.Floor("merge-S-get", importRules(c, r, checkC13, "merge-", []string{"S-get"}, nil), 3)
+	checkScriptNotCarried(c, r)
 	// script paths reach their readers as configured (rule E5 of C06): an
 	// expansion step that rewrites them can cross-wire or blank a slot
 	r.Floor("ref-E5", importRules(c, r, checkC06, "ref-", []string{"E5"}, func(o Obligation) bool {
 		return strings.Contains(o.Construct, "Scripts.")
 	}), 8)
-	r.Rules = []string{"S1 slot<->field table per format equals the statement's", "S2 each slot guarded by non-emptiness of its own field", "S3 bytes flow unmodified from the file read to the slot", "S4 mode constants", "S5 rpmpack scriptlet tags (thorough)", "S6 script buffers are fresh", "S7 a configured script must-reaches its slot", "S4-const modes of generated members depend on no configuration value", "S4-const also for entry descriptors a packager makes up (ipk script table)"}
+	r.Rules = []string{"S1 slot<->field table per format equals the statement's", "S2 each slot guarded by non-emptiness of its own field", "S3 bytes flow unmodified from the file read to the slot", "S4 mode constants", "S5 rpmpack scriptlet tags (thorough)", "S6 script buffers are fresh", "S7 a configured script must-reaches its slot", "S4-const modes of generated members depend on no configuration value", "S4-const also for entry descriptors a packager makes up (ipk script table)", "S3-row script text handed to a slot setter is not a loop-carried variable", "S3-arch-close the text closing an archlinux script function starts on a new line", "merge-S-get override blocks are merged field by field (imported from C13)"}
 	r.Explanation = "Table extraction and field provenance over go/ssa. For every packager the places where a script-path field of the configuration is bound to a slot name are extracted (constant-keyed map updates, struct-literal rows, rpmpack Add* calls) and the resulting (slot, field) relation is compared with the table transcribed from the statement — equality, so a missing, extra or cross-wired slot is a violation and every one of the 15 script fields is accounted for in exactly the formats that own it. Each consumer (the read of the script file) must be dominated by a non-emptiness test of a value with the same script-field provenance (populated iff configured). The bytes that reach the archive writer or the rpmpack slot derive from the file read through conversions only — any other function on that path is a violation. Lifecycle script modes are the stated constants. All subsets of configured scripts are covered because each slot is decided independently of the others."
 	r.Explanation += " (S6) buffers that receive script bytes are fresh or reset. (S7) with only one script configured its slot binding is must-reached from Package. (S4-const) the mode of every member a packager generates itself has no configuration atom in its provenance."
 	r.Explanation += " S4-const also covers the mode a packager writes into a ContentFileInfo it allocates itself."
+	r.Explanation += " (S3-row) the string handed to an rpmpack Add* scriptlet setter or to a function value taken from a table row does not come from a phi that an earlier iteration of the loop feeds. (S3-arch-close) the constant written after a script body in the function that opens a shell function begins with a newline."
 	r.Assumptions = []string{
 		"rpmpack's AddPrein/AddPostin/AddPreun/AddPostun/AddPretrans/AddPosttrans/AddVerifyScript fill the like-named scriptlet tags (thorough tier checks the tag numbers)",
 		"binary safety is argued from the absence of any transformation on the path, not tested on concrete bytes",
@@ -974,4 +978,137 @@ func tableFuncIsRPMSlot(v ssa.Value) bool {
 		}
 	}
 	return true
+}
+
+// carriedPhi: v is, or is chosen by phis from, a variable that a loop updates
+// from one iteration to the next (a phi in a block that dominates one of its
+// own predecessors, fed over that back edge by something other than itself
+// or a constant). nil when there is none.
+func carriedPhi(v ssa.Value) *ssa.Phi {
+	seen := map[ssa.Value]bool{}
+	var found *ssa.Phi
+	var walk func(v ssa.Value, d int)
+	walk = func(v ssa.Value, d int) {
+		switch x := v.(type) {
+		case *ssa.Convert:
+			walk(x.X, d+1)
+			return
+		case *ssa.ChangeType:
+			walk(x.X, d+1)
+			return
+		}
+		phi, isPhi := v.(*ssa.Phi)
+		if !isPhi || seen[v] || d > 8 || found != nil {
+			return
+		}
+		seen[v] = true
+		for i, e := range phi.Edges {
+			pred := phi.Block().Preds[i]
+			if phi.Block().Dominates(pred) && e != ssa.Value(phi) {
+				if _, isK := e.(*ssa.Const); !isK {
+					found = phi
+					return
+				}
+			}
+			walk(e, d+1)
+		}
+	}
+	walk(v, 0)
+	return found
+}
+
+// checkScriptNotCarried (S3-row): where the scripts are stored by a loop over
+// a table of slots, the text handed to a slot's setter is read in that very
+// iteration. A variable that survives from one iteration to the next hands an
+// unconfigured slot the script of the slot before it.
+func checkScriptNotCarried(c *Ctx, r *Report) {
+	n := 0
+	for _, pk := range c.Packagers {
+		if pk.Format == "" {
+			continue
+		}
+		for _, fn := range sortedFuncs(c, c.Reach(pk.Package)) {
+			if c.funcPkgPath(fn) != pk.PkgPath {
+				continue
+			}
+			forEachInstr(fn, func(in ssa.Instruction) {
+				call, ok := in.(*ssa.Call)
+				if !ok || len(call.Call.Args) == 0 {
+					return
+				}
+				// a slot setter: rpmpack's Add* scriptlet methods, or a function
+				// value taken from a table row
+				setter := false
+				if o := calleeObj(call); o != nil && o.Pkg() != nil && o.Pkg().Path() == rpmpackPath && strings.HasPrefix(o.Name(), "Add") && call.Call.Args[len(call.Call.Args)-1].Type().String() == "string" {
+					setter = true
+				}
+				if call.Call.StaticCallee() == nil && !call.Call.IsInvoke() {
+					if _, _, isRow := loopElemField(call.Call.Value); isRow {
+						setter = true
+					}
+				}
+				if !setter {
+					return
+				}
+				n++
+				arg := call.Call.Args[len(call.Call.Args)-1]
+				phi := carriedPhi(arg)
+				why := "the text comes from this iteration's read"
+				if phi != nil {
+					why = "the text handed to the slot is the loop-carried variable " + shorten(valueExpr(c, phi, 0), 60) + ": a slot whose script is not configured receives the script read for an earlier slot"
+				}
+				r.Check(phi == nil, "S3-row", fmt.Sprintf("%s: script text handed to a slot setter#%d in %s is read for that slot", pk.Format, n, c.funcKey(fn)), c.instrPos(call), why)
+			})
+		}
+	}
+	r.Floor("S3-row", n, 1)
+}
+
+// checkInstallFunctionClosed (S3-arch-close): archlinux wraps each script in a
+// shell function. The script is copied verbatim, so whether it ends in a
+// newline is the user's business; the text that closes the function must
+// therefore begin with a newline itself - otherwise the brace is glued to the
+// script's last line and the function is never closed.
+func checkInstallFunctionClosed(c *Ctx, r *Report) {
+	pk := c.PackagerByFormat("archlinux")
+	if pk == nil {
+		return
+	}
+	n := 0
+	for _, fn := range sortedFuncs(c, c.Reach(pk.Package)) {
+		if c.funcPkgPath(fn) != pk.PkgPath {
+			continue
+		}
+		// the function that opens "function <name>() {" ...
+		opens := false
+		forEachInstr(fn, func(in ssa.Instruction) {
+			if call, ok := in.(*ssa.Call); ok {
+				for _, a := range call.Call.Args {
+					if strings.HasPrefix(constOrEmpty(a), "function ") {
+						opens = true
+					}
+				}
+			}
+		})
+		if !opens {
+			continue
+		}
+		// ... and writes the closing brace
+		forEachInstr(fn, func(in ssa.Instruction) {
+			call, ok := in.(*ssa.Call)
+			if !ok {
+				return
+			}
+			for _, a := range call.Call.Args {
+				t := constOrEmpty(a)
+				if t == "" || !strings.Contains(t, "}") || strings.HasPrefix(t, "function ") {
+					continue
+				}
+				n++
+				r.Check(strings.HasPrefix(t, "\n"), "S3-arch-close", fmt.Sprintf("archlinux: text closing a script function#%d in %s starts on a new line", n, c.funcKey(fn)), c.instrPos(call),
+					fmt.Sprintf("the closing text is %q: after a script that does not end in a newline the brace continues the script's last line, the function stays open and swallows the next one", t))
+			}
+		})
+	}
+	r.Floor("S3-arch-close", n, 1)
 }
